@@ -67,7 +67,7 @@ class Layout:
 
 
 def build(tables, file_objects=None, *, hdr_seqs=(2, 1), sigs=None, version=0x400, extra_objects=(), objtab_chain=False,
-          table_size=0x1000, more_objtabs=None, stale_header_differs=True, chain=1, chain_rng=None):
+          table_size=0x1000, more_objtabs=None, stale_header_differs=True, chain=1, chain_rng=None, more_sigs=None):
     """tables: list of {"idx", "seq", "entries": [bytes...]} in object-table order (entries already encoded, with resolved
     parent offsets).  file_objects: {offset_placeholder_key: bytes} handled by the caller through Layout.
     Returns bytes."""
@@ -105,10 +105,10 @@ def build(tables, file_objects=None, *, hdr_seqs=(2, 1), sigs=None, version=0x40
     out[0x2000] = ot
     for off, ents in (more_objtabs or {}).items():
         # additional object tables (reachable through ObjectTable entries): {offset: [(type, offset, size, allocated)]}
-        t = struct.pack("<II", SIG_OBJTAB, len(ents))
+        t = struct.pack("<II", (more_sigs or {}).get(off, SIG_OBJTAB), len(ents))
         for typ, o2, size, alloc in ents:
             t += struct.pack("<BIQIB", typ, 0x1234, o2, size, alloc)
-        out[off] = t.ljust(0x1000, b"\0")
+        out[off] = t if off < 0x2000 else t.ljust(0x1000, b"\0")   # below 0x2000: in the slack behind the second header copy
     out[0x3000] = replay_log(sig=sigs.get("replay", SIG_REPLAY))
     # the header copy with the lower sequence number is stale: its replay log pointer leads nowhere (a reader that picks it fails)
     lo1 = 0x3000 if (hdr_seqs[0] >= hdr_seqs[1] or not stale_header_differs) else 0x3800
